@@ -16,7 +16,6 @@ import (
 // received (the "client view"). No model involved.
 // ---------------------------------------------------------------------------
 
-const knownRangeSig = "LOCK at offset 2^64-1 with length to-EOF yields an empty range"
 
 // surelyLive: the server cannot have expired the record: it is executing one
 // of its requests, or its lease was renewed less than a lease time ago.
@@ -202,8 +201,8 @@ func (r *run) lockGranted(ls *stateRec, leaf int, c *clientRec, lo, lt int, off,
 		// the request asks for byte 2^64-1 … EOF
 		for other, oty := range o.top {
 			if other != id && (oty == 2 || ty == 2) && r.ownerLive(other) {
-				r.failMonitor("C20", knownRangeSig,
-					"%s: owner lo%d of client record c%d and owner lo%d of c%d were both granted a lock from offset 2^64-1 to the end of the file, one of them exclusive: LOCK(2^64-1, all-ones) is converted to the empty range [2^64-1, 2^64-1), which conflicts with nothing",
+				r.failMonitor("C20", "",
+					"%s: owner lo%d of client record c%d and owner lo%d of c%d were both granted a lock from offset 2^64-1 to the end of the file, one of them exclusive (LOCK(2^64-1, all-ones) converted to the empty range [2^64-1, 2^64-1), which conflicts with nothing, instead of being refused with NFS4ERR_BAD_RANGE)",
 					r.lastLine, other.key, other.cl, id.key, id.cl)
 			}
 		}
@@ -234,6 +233,85 @@ func (r *run) lockReleased(leaf int, c *clientRec, lo int, off, length uint64) {
 	if !empty {
 		o.remove(id, a, b)
 	}
+}
+
+// locktAnswer: the answer of the latest LOCKT (for the report of monitorLockAnswer).
+type locktAnswer struct {
+	step        int
+	c           *clientRec
+	lo, leaf    int
+	ty          int
+	off, length uint64
+	denied      bool
+	line        string
+}
+
+// lockMust: judged when the LOCK is sent. The request is one the server has to
+// answer with a grant or with a conflicting lock: a valid range and type, the
+// current state ID of an open (new lock-owner) or lock state (existing one) of a
+// client whose lease is valid, correct sequence IDs, no parked request of the
+// owner, and (4.0, new_lock_owner) no lock state ID the client ever received
+// for this lock-owner on this open.
+func (r *run) lockMust(s *stateRec, c *clientRec, lo, ty int, off, length uint64, fresh bool, o opts) bool {
+	if o.ss != "" || o.os != 0 || o.ls != 0 || o.as != "" || o.fh != "" || r.sharedLO || s == nil || !r.stateUsable(s) || ty < 1 || ty > 4 {
+		return false
+	}
+	if _, _, ok, empty := rfcRange(off, length); !ok || empty {
+		return false
+	}
+	if !fresh {
+		return s.lock && s.parent != nil && r.stateUsable(s.parent) && (r.v40() || c == s.c)
+	}
+	if s.lock || c != s.c {
+		return false
+	}
+	for _, t := range r.states {
+		if t.lock && t.c == s.c && t.key == lo && t.leaf == s.leaf {
+			if r.v40() && t.parent == s {
+				// the lock-owner is (or was) associated with this open: open_to_lock_owner is the wrong arm
+				return false
+			}
+			if t.parent != s && !t.closed {
+				return false // would be the shared lock-owner shape (known finding)
+			}
+		}
+	}
+	return true
+}
+
+// monitorLockAnswer: "a lock test reports a conflict exactly when a lock request
+// would be denied". A LOCK the server has to decide (lockMust) is answered
+// NFS4_OK or NFS4ERR_DENIED, as LOCKT for the same owner, type and range is;
+// lockGranted / lockDenied judge which of the two.
+func (r *run) monitorLockAnswer(s *stateRec, lo, ty int, off, length uint64, st uint32) {
+	r.count("lock-must")
+	if st == stOK || st == stDenied {
+		return
+	}
+	a, b, _, _ := rfcRange(off, length)
+	id := ownerID{s.c.modelID, lo}
+	if s.lock {
+		id.key = s.key
+	}
+	t := tyOf(ty)
+	verdict := "would report no conflict"
+	live := false
+	for _, cf := range r.oracleOf(s.leaf).conflicts(id, a, b, t) {
+		if r.ownerLive(cf.id) {
+			live = true
+		}
+	}
+	if live {
+		verdict = "would report a conflict"
+	}
+	if l := r.lastLockt; l != nil && l.step == r.out.steps-1 && l.c == s.c && l.lo == id.key && l.leaf == s.leaf && l.ty == t && l.off == off && l.length == length {
+		verdict = "in the step before (" + l.line + ") reported no conflict"
+		if l.denied {
+			verdict = "in the step before (" + l.line + ") reported a conflict"
+		}
+	}
+	r.failMonitor("C20", "", "%s: LOCK of [%d,%d] type %d by owner lo%d of c%d, sent with the current state ID and sequence IDs while the lease is valid, was answered with status %d, which is neither a grant nor a conflicting lock; LOCKT for the same owner, type and range %s: a lock test no longer tells whether a lock request would be denied",
+		r.lastLine, a, b, t, id.key, id.cl, st, verdict)
 }
 
 // lockDenied: LOCK / LOCKT answered NFS4ERR_DENIED.
@@ -384,7 +462,7 @@ func (r *run) monitorIO(q *request, kind string, st uint32, reached bool) {
 		return
 	}
 	s := q.ioState
-	if q.ioMust && st != stOK {
+	if q.ioMust && st != stOK && !q.ioFaulted {
 		what := map[string]string{"r": "READ", "w": "WRITE", "s": "SETATTR"}[kind]
 		r.failMonitor("C18", "", "%s: %s with the state ID of request %d (access %d, client lease valid, file still open when the request was sent) was refused with status %d: the server no longer honours a state ID that still entitles the client",
 			r.lastLine, what, s.req, s.access, st)
